@@ -32,5 +32,7 @@ class SP(MultiQueueScheduler):
                     print(packet)
                     packet.priorities[self.flow2class(packet.flow_id)] = prio
                     yield env.process(self.send_packet(packet))
+                    # re-examine the queues from the highest priority down
+                    break
             if self.total_packets == 0:
                 yield self.packets_available.get()
